@@ -6,6 +6,8 @@ import (
 	"go/token"
 	"go/types"
 	"sort"
+	"strconv"
+	"strings"
 
 	"golang.org/x/tools/go/ssa"
 )
@@ -211,6 +213,8 @@ func (p *Prog) readOnlyGlobalTables() map[*ssa.Global]*globalTable {
 // "identity" when the parameter itself is returned, "?<expr>" when the returned value is outside the
 // interpreter's domain; ok=false when a branch condition cannot be evaluated, the step limit is hit or
 // an index is out of range (a panic, not a value).
+var constEvalDepth int
+
 func constFnEval(p *Prog, fn *ssa.Function, k constant.Value) (string, bool) {
 	if len(fn.Params) < 1 || fn.Blocks == nil {
 		return "", false
@@ -339,6 +343,35 @@ func constFnEval(p *Prog, fn *ssa.Function, k constant.Value) (string, bool) {
 		case *ssa.Extract:
 			if tup, ok := val(x.Tuple).([2]constant.Value); ok {
 				env[x] = tup[x.Index]
+			}
+		case *ssa.Call:
+			// a module function of one scalar argument applied to a known constant (t.String() in a search over the
+			// values of an enumeration): evaluated the same way
+			sc := x.Call.StaticCallee()
+			if sc == nil || sc.Blocks == nil || !p.isLibFn(sc) || len(x.Call.Args) != 1 || len(sc.Params) != 1 || constEvalDepth > 3 {
+				return true
+			}
+			a, ok := val(x.Call.Args[0]).(constant.Value)
+			if !ok || a == nil {
+				return true
+			}
+			constEvalDepth++
+			res, okR := constFnEval(p, sc, a)
+			constEvalDepth--
+			if !okR {
+				return false
+			}
+			switch {
+			case strings.HasPrefix(res, "\""):
+				if sv, err := strconv.Unquote(res); err == nil {
+					env[x] = constant.MakeString(sv)
+				}
+			case res == "true" || res == "false":
+				env[x] = constant.MakeBool(res == "true")
+			default:
+				if cv := constant.MakeFromLiteral(res, token.INT, 0); cv.Kind() == constant.Int {
+					env[x] = cv
+				}
 			}
 		}
 		return true
@@ -536,4 +569,146 @@ func debugTables(p *Prog) {
 	for g, t := range p.readOnlyGlobalTables() {
 		fmt.Println("TABLE", g.Name(), t.entries, t.length)
 	}
+}
+
+// constGlobalField: v is a load of a field of a package-level struct (or of the struct a package-level pointer
+// was initialised with) that only the package initialiser writes, and whose address never leaves field
+// selections: the value the initialiser stored there (a constant, or e.g. the load of another global). nil when
+// v is not of that shape or the structure is not read-only.
+func (p *Prog) constGlobalField(v ssa.Value) ssa.Value {
+	ld, ok := v.(*ssa.UnOp)
+	if !ok || ld.Op != token.MUL {
+		return nil
+	}
+	fa, ok := ld.X.(*ssa.FieldAddr)
+	if !ok {
+		return nil
+	}
+	var g *ssa.Global
+	viaPtr := false
+	switch b := fa.X.(type) {
+	case *ssa.Global:
+		g = b
+	case *ssa.UnOp:
+		if gg, isG := b.X.(*ssa.Global); isG && b.Op == token.MUL {
+			g, viaPtr = gg, true
+		}
+	}
+	if g == nil || g.Pkg == nil {
+		return nil
+	}
+	initFn := g.Pkg.Func("init")
+	if initFn == nil {
+		return nil
+	}
+	// the structure's storage as the initialiser sees it
+	var base ssa.Value = g
+	if viaPtr {
+		var stored ssa.Value
+		n := 0
+		eachInstr(initFn, func(b *ssa.BasicBlock, i int, in ssa.Instruction) {
+			if st, isSt := in.(*ssa.Store); isSt && st.Addr == ssa.Value(g) {
+				stored = st.Val
+				n++
+			}
+		})
+		al, isAl := stored.(*ssa.Alloc)
+		if n != 1 || !isAl {
+			return nil
+		}
+		base = al
+	}
+	var val ssa.Value
+	n := 0
+	eachInstr(initFn, func(b *ssa.BasicBlock, i int, in ssa.Instruction) {
+		st, isSt := in.(*ssa.Store)
+		if !isSt {
+			return
+		}
+		if f2, isFA := st.Addr.(*ssa.FieldAddr); isFA && f2.X == base && f2.Field == fa.Field {
+			val = st.Val
+			n++
+		}
+	})
+	if n > 1 {
+		return nil
+	}
+	// read-only everywhere else: the global is not stored, no field is stored through it, and the pointer /
+	// address is used for field selection only
+	okRO := true
+	for _, pk := range p.SSA.AllPackages() {
+		if !p.isLibPkg(pk.Pkg) {
+			continue
+		}
+		for _, m := range pk.Members {
+			fn, isFn := m.(*ssa.Function)
+			if !isFn {
+				continue
+			}
+			fns := append([]*ssa.Function{fn}, fn.AnonFuncs...)
+			for _, f := range fns {
+				if f == initFn {
+					continue
+				}
+				eachInstr(f, func(b *ssa.BasicBlock, i int, in ssa.Instruction) {
+					if st, isSt := in.(*ssa.Store); isSt && st.Addr == ssa.Value(g) {
+						okRO = false
+					}
+					var ref ssa.Value
+					if viaPtr {
+						if l2, isL := in.(*ssa.UnOp); isL && l2.Op == token.MUL && l2.X == ssa.Value(g) {
+							ref = l2
+						}
+					} else if in == ssa.Instruction(nil) {
+						return
+					}
+					if ref == nil {
+						return
+					}
+					for _, u := range *ref.Referrers() {
+						f3, isFA := u.(*ssa.FieldAddr)
+						if !isFA || f3.X != ref {
+							if _, isDbg := u.(*ssa.DebugRef); !isDbg {
+								okRO = false
+							}
+							continue
+						}
+						for _, u2 := range *f3.Referrers() {
+							if l3, isL := u2.(*ssa.UnOp); !isL || l3.Op != token.MUL {
+								if _, isDbg := u2.(*ssa.DebugRef); !isDbg {
+									okRO = false
+								}
+							}
+						}
+					}
+				})
+			}
+		}
+	}
+	if !viaPtr {
+		// a struct-valued global: every use of a field address of g outside init must be a load
+		for _, u := range *g.Referrers() {
+			f3, isFA := u.(*ssa.FieldAddr)
+			if !isFA {
+				continue
+			}
+			if ui, isI := u.(ssa.Instruction); isI && ui.Parent() == initFn {
+				continue
+			}
+			for _, u2 := range *f3.Referrers() {
+				if l3, isL := u2.(*ssa.UnOp); !isL || l3.Op != token.MUL {
+					if _, isDbg := u2.(*ssa.DebugRef); !isDbg {
+						okRO = false
+					}
+				}
+			}
+		}
+	}
+	if !okRO {
+		return nil
+	}
+	if n == 0 {
+		return nil // zero value: not needed by the callers
+	}
+	return val
 }
